@@ -17,15 +17,12 @@ def revcomp(s):
 
 
 def read_index(name):
-    # generated names start with r<idx>
-    tok = name.split()[0].split("/")[0]
-    for pre in ("p_", "ad0_", "ad1_", "ad2_", "no_adapter_"):
-        if tok.startswith(pre):
-            tok = tok[len(pre):]
-    tok = tok.split("_")[0]
-    if tok.startswith("r") and tok[1:].isdigit():
-        return int(tok[1:])
-    return None
+    """generated read names are r<idx> plus optional comment; name-modifying options may add prefixes/suffixes"""
+    import re
+
+    tok = name.split()[0] if name.split() else name
+    m = re.search(r"(?:^|_)r(\d+)(?=$|[_/;])", tok)
+    return int(m.group(1)) if m else None
 
 
 def is_sub(small, big):
@@ -737,6 +734,11 @@ def run(ctx, pid):
                     shown += 1
                     ctx.violation("correspondence:pipeline " + ent["diffs"][0].split(":")[0], dict(replay_doc(ent, "model and implementation differ"), diffs=ent["diffs"][:4]),
                                   found_input=False)
+    if pid in ("C03", "C04", "C10", "C11", "C15", "C16"):
+        from . import pairprops
+
+        pres = pairprops.paired_part(ctx, pid, max(60, n // 3), dist)
+        results_paired = len(pres)
     ctx.coverage["rule"] = (
         "random valid single-end option sets inside the modelled fragment (focus: %s), 1-12 reads each with planted/edited/partial adapter copies, "
         "quality tails, N ends, poly-A tails, CASAVA and length= headers; implementation = cutadapt.cli.main in-process on the rebuilt working tree, "
@@ -792,6 +794,10 @@ def replay_doc(ent, why):
 
 def replay(doc, pid):
     r = doc["replay"]
+    if r.get("paired"):
+        from . import pairprops
+
+        return pairprops.replay(doc, pid)
     cfg = S.Cfg.from_json(r["cfg"])
     reads = [tuple(x) for x in r["reads"]]
 
